@@ -84,6 +84,9 @@ def gen_failures(ctx):
         for place in PLACES:
             for disp in ('sync', 'async', 'async-plain', 'async-wrapped', 'async-seq', 'sync-mw', 'async-mw'):
                 yield dict(part='fail', disp=disp, beh=beh, place=place)
+                if beh['kind'] == 'boom' and disp in ('sync', 'async', 'sync-mw'):
+                    # the application runs with DEBUG logging on: the exception is logged, the response says no more than before
+                    yield dict(part='fail', disp=disp, beh=beh, place=place, log=True)
 
 
 def gen_texts(ctx):
@@ -221,7 +224,12 @@ def run_text(case, rec):
 
 
 def run_case(case, rec):
-    r = run_failure(case, rec) if case['part'] == 'fail' else run_text(case, rec)
+    if case.get('log'):
+        from mc.harness.clientrun import debug_logging
+        with debug_logging(True):
+            r = run_failure(case, rec)
+    else:
+        r = run_failure(case, rec) if case['part'] == 'fail' else run_text(case, rec)
     rec.states += 1
     rec.traces += 1
     rec.counters[case['part']] += 1
